@@ -138,7 +138,7 @@ impl Property for C16 {
         "C16"
     }
     fn rule(&self) -> &'static str {
-        "proptest single cases: app (the shipped example / a minimal harness app that calls the interface's validate_message helper and aborts on error / in a quarter of the cases the token service itself, delivered a hub message that mints a deployed token) x delivery (chain, id, source address from small pools incl. empty strings; payload 0..600 bytes) x at most one deviation (never approved; approved for another app / approved under the case's chain but delivered naming another source chain / for the account-kind address with the app's 32 bytes / another payload / source address / id / chain; delivered twice; additionally approved for the other app; approval re-submitted, or the id re-approved with other content, after delivery; approved under another split of the same characters between chain and id, for 8 separators; approval and delivery differing only in letter case or a trailing space of chain / id / source address, in either direction) x 0..150 days passing between approval and delivery and between the first delivery and whatever is tried afterwards, optionally with a signer rotation (ordinary or operator-bypass) after the first delivery, later approvals being signed by the new set, and optionally with a third party calling the gateway's validate_message for the delivered id in between (ledger sequence and clock advanced; temporary entries of that age are gone). All 2x33 app x deviation combinations are also enumerated as fixed cases. Oracle: the app's effect (its executed event / counter) and the gateway's transition to executed happen iff the gateway held a matching unexecuted approval naming this app; otherwise the delivery fails, nothing is emitted and the ledger snapshot is identical. non-trivial = a deviation is present; distinct by Debug hash"
+        "proptest single cases: app (the shipped example / a minimal harness app that calls the interface's validate_message helper and aborts on error / in a quarter of the cases the token service itself, delivered a hub message that mints a deployed token) x delivery (chain, id, source address from small pools incl. empty strings and ids of 121 and 160 characters; payload 0..600 bytes) x at most one deviation (never approved; approved for another app / approved under the case's chain but delivered naming another source chain / for the account-kind address with the app's 32 bytes / another payload / source address / id / chain; delivered twice; additionally approved for the other app; approval re-submitted, or the id re-approved with other content, after delivery; approved under another split of the same characters between chain and id, for 8 separators; approval and delivery differing only in letter case or a trailing space of chain / id / source address, in either direction) x 0..150 days passing between approval and delivery and between the first delivery and whatever is tried afterwards, optionally with a signer rotation (ordinary or operator-bypass) after the first delivery, later approvals being signed by the new set, and optionally with a third party calling the gateway's validate_message for the delivered id in between (ledger sequence and clock advanced; temporary entries of that age are gone). All 2x33 app x deviation combinations are also enumerated as fixed cases. Oracle: the app's effect (its executed event / counter) and the gateway's transition to executed happen iff the gateway held a matching unexecuted approval naming this app; otherwise the delivery fails, nothing is emitted and the ledger snapshot is identical. non-trivial = a deviation is present; distinct by Debug hash"
     }
     fn fixed_is_exhaustive(&self) -> Option<&'static str> {
         Some("app x deviation matrix (2 x 33) enumerated completely with one fixed delivery; deliveries sampled")
@@ -147,7 +147,7 @@ impl Property for C16 {
         tier.pick(20000, 200000)
     }
     fn strategy(&self, _tier: Tier) -> BoxedStrategy<Case> {
-        (any::<bool>(), prop::sample::select(DEVS.to_vec()), 0u8..3, 0u8..3, 0u8..3, 0u16..600, any::<u64>(), prop::sample::select(DAYS.to_vec()), prop::sample::select(DAYS.to_vec()))
+        (any::<bool>(), prop::sample::select(DEVS.to_vec()), 0u8..3, 0u8..5, 0u8..3, 0u16..600, any::<u64>(), prop::sample::select(DAYS.to_vec()), prop::sample::select(DAYS.to_vec()))
             .prop_map(|(example_app, dev, chain, id, src, payload_len, seed, days_before, days_after)| Case { example_app, dev, chain, id, src, payload_len, seed, days_before, days_after, rotation_after: (seed % 5).min(2) as u8 % 3, its_app: seed % 4 == 3 })
             .boxed()
     }
@@ -211,11 +211,15 @@ impl Property for C16 {
             cx.label("app_is_the_token_service");
         }
         let chains = ["ethereum", "", "Avalanche-Fuji"];
-        let ids = ["0xabc-1", "", "b"];
+        // (the last two: 160 characters, as long as a transaction hash written twice plus an index; and 121, which
+        // with "ethereum" makes 129)
+        let long_a = format!("0x{}-7", "f".repeat(156));
+        let long_b = format!("0x{}-7", "e".repeat(117));
+        let ids = ["0xabc-1", "", "b", long_a.as_str(), long_b.as_str()];
         let srcs = ["0xsender", "", "c"];
         let chain = if case.its_app { crate::itsw::HUB_CHAIN } else { chains[case.chain as usize % 3] };
         // (one chain name has upper-case letters; the case-variant deviation turns it to lower case)
-        let id = ids[case.id as usize % 3];
+        let id = ids[case.id as usize % 5];
         let src = if case.its_app { "hub-address" } else { srcs[case.src as usize % 3] };
         let payload = match its_payload {
             Some(p) => p,
